@@ -612,16 +612,30 @@ def _initialised(history, t):
     return sorted(gs)
 
 
+def _compared(history):
+    """{private table: groups whose digest is compared with canonical}: the groups initialised on
+    it by the history; nothing for P1 when the history assigns to / mutates P1."""
+    mutated = any(n.startswith("T.mut:") for n in history)
+    out = {}
+    for t in _tables_in(history):
+        if t == P1 and mutated:
+            continue
+        gs = _initialised(history, t)
+        if gs:
+            out[t] = gs
+    return out
+
+
 def _history_program(history):
     steps = [L.ev(n) for n in history] + [{"op": "state", "label": "after"}] + L.FINISH
-    for t in _tables_in(history):
-        steps.append(_dig(t, t, None, prereq=True))
+    for t, gs in sorted(_compared(history).items()):
+        steps.append(_dig(t, t, gs, prereq=True))
     return steps
 
 
 def _history_expect(history, canon):
     exp = {"public": canon["hash"]}
-    for t in _tables_in(history):
+    for t in _compared(history):
         exp[t] = canon["hash"]
     return exp
 
@@ -634,13 +648,10 @@ def _history_check(history, res, canon):
     d = L.compare_public(res, canon)
     if d:
         out["public"] = d
-    mutated = any(n.startswith("T.mut:") for n in history)
-    for t in _tables_in(history):
-        if t == P1 and mutated:
-            continue        # P1 was deliberately changed: its own values are not compared
+    for t, gs in sorted(_compared(history).items()):
         dg = res["digests"][t]
         td = {}
-        for g in _initialised(history, t):
+        for g in gs:
             if dg["hash"][g] != canon["hash"][g]:
                 td[g] = L.diff_detail(canon["detail"][g], dg["detail"][g])
         if td:
@@ -652,31 +663,27 @@ def _history_check(history, res, canon):
     return out, bad
 
 
-def _hsig(diffs, bad):
-    return "|".join("%s=%s" % (t, L.diff_signature(d)) for t, d in sorted(diffs.items())) \
-        + "|" + repr(sorted((n, L.short(v, 60)) for n, v, _e in bad))
+def _components(diffs, bad):
+    """one failure component per (table, group) with its diff signature; value-only components
+    when no digest differs"""
+    comps = {}
+    for t, d in diffs.items():
+        for g, dd in d.items():
+            comps[("digest", "%s.%s" % (t, g), L.diff_signature({g: dd}))] = dd
+    if not diffs:
+        for n, v, _e in bad:
+            comps[("value", n, L.short(v, 80))] = None
+    return comps
 
 
 def _run_histories(hs, canon):
     from concurrent.futures import ThreadPoolExecutor
     import os
+    if not hs:
+        return []
     with ThreadPoolExecutor(max_workers=min(16, os.cpu_count() or 4)) as pool:
         return list(pool.map(lambda h: L.run_program(_history_program(h),
                                                      expect=_history_expect(h, canon)), hs))
-
-
-def _shrink(history, sig, canon):
-    cur = list(history)
-    changed = True
-    while changed and len(cur) > 1:
-        changed = False
-        cands = [cur[:i] + cur[i + 1:] for i in range(len(cur))]
-        for c, r in zip(cands, _run_histories(cands, canon)):
-            diffs, bad = _history_check(c, r, canon)
-            if (diffs or bad) and _hsig(diffs, bad) == sig:
-                cur, changed = c, True
-                break
-    return cur
 
 
 def _sample_histories(tier, seed):
@@ -709,39 +716,56 @@ def task_histories(tier, seed, arg):
     t0 = time.time()
     canon = L.canonical()
     hs, plan, n = _sample_histories(tier, seed)
-    results = _run_histories(hs, canon)
-    clusters, distinct, samples = {}, set(), []
+    run_batch = lambda hists: _run_histories(hists, canon)
+    results = run_batch(hs)
+    clusters, distinct, samples, failing = {}, set(), [], 0
     for h, res in zip(hs, results):
         diffs, bad = _history_check(h, res, canon)
         if any(x.startswith("T.init") or x.startswith("T.mut") for x in h):
             distinct.add(tuple(h))
-        if len(samples) < 5 and len(h) == max(plan) and len(_tables_in(h)) == 2:
+        if len(samples) < 5 and len(h) == max(plan) and len(_tables_in(h)) == 2 and _compared(h):
             samples.append({"history": h, "results": [L.short(v, 50) for v in res.get("results", [])],
-                            "compared": dict((t, _initialised(h, t)) for t in _tables_in(h)),
+                            "compared": _compared(h),
                             "outcome": _history_text(diffs, bad) or "canonical"})
         if diffs or bad:
-            clusters.setdefault(_hsig(diffs, bad), []).append(h)
+            failing += 1
+            for ck in _components(diffs, bad):
+                clusters.setdefault(ck, []).append(h)
+    reps = dict((ck, sorted(members, key=lambda m: (len(m), m))[0])
+                for ck, members in clusters.items())
+
+    def has_component(ck, h, res):
+        diffs, bad = _history_check(h, res, canon)
+        return ck in _components(diffs, bad)
+    minimal = L.shrink_all(reps, run_batch, has_component)
+    cks = sorted(minimal, key=lambda k: (k[0], k[1], minimal[k]))
+    finals = run_batch([minimal[ck] for ck in cks])
     violations, notes = [], []
-    for sig, members in sorted(clusters.items()):
-        members.sort(key=lambda m: (len(m), m))
-        hmin = _shrink(members[0], sig, canon)
-        res = _run_histories([hmin], canon)[0]
+    for ck, res in zip(cks, finals):
+        hmin = minimal[ck]
         diffs, bad = _history_check(hmin, res, canon)
-        where = "+".join("%s.%s" % (t, g) for t, d in sorted(diffs.items()) for g in sorted(d)) or "value"
+        kind, where, _sig = ck
+        if kind == "digest":
+            t, g = where.split(".", 1)
+            own = {t: {g: diffs.get(t, {}).get(g, clusters and {})}} if g in diffs.get(t, {}) else diffs
+        else:
+            own = diffs
         violations.append({
-            "key": "histories:%s:%s" % (where, ">".join(hmin)),
+            "key": "histories:%s:%s" % (where if kind == "digest" else "value", ">".join(hmin)),
             "what": "after this interleaving (then the canonical finisher) a table does not serve "
-                    "the canonical values: %s" % _history_text(diffs, bad),
+                    "the canonical values: %s" % _history_text(own, bad if kind == "value" else []),
             "input": {"kind": "history", "history": hmin},
-            "observed": {"summary": _history_text(diffs, bad), "diff": diffs,
+            "observed": {"summary": _history_text(own, bad if kind == "value" else []),
+                         "diff": own, "all_differences_of_this_history": _history_text(diffs, bad),
                          "results": [L.short(v, 80) for v in res.get("results", [])],
-                         "histories_with_this_signature": len(members),
-                         "examples": [">".join(m) for m in members[:3]]},
+                         "histories_with_this_signature": len(clusters[ck]),
+                         "examples": [">".join(m) for m in
+                                      sorted(clusters[ck], key=lambda m: (len(m), m))[:3]]},
             "expected": "public digest == canonical; untouched private tables serve canonical "
                         "values for the groups initialised on them"})
-    notes.append("failing histories: %d of %d, clustered into %d causes by diff signature; each "
-                 "representative shrunk by single-event deletion"
-                 % (sum(len(m) for m in clusters.values()), len(hs), len(clusters)))
+    notes.append("failing histories: %d of %d; failures split per (table, group) and clustered by "
+                 "diff signature into %d causes; each representative shrunk by single-event deletion"
+                 % (failing, len(hs), len(clusters)))
     notes.append("wall %.1fs" % (time.time() - t0))
     return _result(
         "histories", len(hs), len(distinct),
